@@ -251,6 +251,12 @@ def mkEvents : Nat → List Seg → List Ev
   | _, [] => []
   | i, s :: r => mkEv i s s.on .opn (2 * i + 1) :: mkEv i s s.cn .close (2 * i) :: mkEvents (i + 1) r
 
+/-- what `CompareActiveEvents` reads of an `Event*` (key record of the regenerated comparator, Gen/PlanariseCmp.lean) -/
+structure EvKey where
+  y : Rat
+  ty : Nat
+  deriving Repr, Inhabited
+
 /-- `CompareActiveEvents` on the y-coordinates of the end nodes and the types -/
 def compareActive (ya : Rat) (ta : EvType) (yb : Rat) (tb : EvType) : Bool :=
   if yb - ya > tolY then true
